@@ -145,6 +145,30 @@ def strsOf : List J → Option (List String)
   | .str s :: rest => (strsOf rest).map (s :: ·)
   | _ :: _ => none
 
+/-- Python's `str(e)` on the members `Fn::Join` is given: text as it is; numbers and booleans that a mapping holds
+    (returned raw by `Fn::FindInMap`) by their Python spelling; containers are outside the typed fragment -/
+def pyStrOf : J → Option String
+  | .str s => some s
+  | .int i => some (String.ofList (intToChars i))
+  | .bool b => some (if b then "True" else "False")
+  | .num r => some r
+  | _ => none
+
+def pyStrsOf : List J → Option (List String)
+  | [] => some []
+  | x :: rest => match pyStrOf x, pyStrsOf rest with
+    | some s, some ss => some (s :: ss)
+    | _, _ => none
+
+theorem pyStrsOf_of_strsOf : ∀ (items : List J) (ss : List String), strsOf items = some ss → pyStrsOf items = some ss
+  | [], ss, h => by simpa [strsOf, pyStrsOf] using h
+  | x :: rest, ss, h => by
+    cases x <;> simp [strsOf] at h
+    rename_i s
+    obtain ⟨tl, htl, hss⟩ := h
+    subst hss
+    simp [pyStrsOf, pyStrOf, pyStrsOf_of_strsOf rest tl htl]
+
 /-- base64 (RFC 4648, with padding) of a byte list -/
 def b64Alphabet : List Char := "ABCDEFGHIJKLMNOPQRSTUVWXYZabcdefghijklmnopqrstuvwxyz0123456789+/".toList
 def b64Char (n : Nat) : Char := b64Alphabet.getD n 'A'
@@ -229,7 +253,7 @@ def applyFn (env : Env) (fn : String) (raw : J) (whole : Option J) (each : List 
     | [rd, rl] => do
       match ← rd, ← rl with
       | .str sep, .arr items => do
-        let ss ← strsOf items
+        let ss ← pyStrsOf items
         pure (.str (String.ofList (join sep.toList (ss.map String.toList))))
       | _, _ => none
     | _ => none
